@@ -400,6 +400,8 @@ def replay_with(doc, ctx_standin, ghost_override=None, cand=None):
                 kw[n] = extra[n]
             elif n == 'self':
                 kw[n] = None        # contract of a module-level function
+                if fname == 'post' and extra and 'result' in extra and str(getattr(C, 'target', '')).endswith('.__init__'):
+                    kw[n] = extra['result']      # constructor: the post speaks about the constructed object
         return fn(**kw)
 
     pre = spec('pre')
